@@ -60,6 +60,11 @@ Pattern:
 		if star {
 			// Look for match skipping i+1 bytes.
 			for i := 0; i < len(name); i++ {
+				// a star consumes whole characters, never a part of a
+				// multi-byte character
+				if i+1 < len(name) && !utf8.RuneStart(name[i+1]) {
+					continue
+				}
 				t, ok, err := matchChunk(chunk, name[i+1:])
 				if ok {
 					// if we're the last chunk, make sure we exhausted the name
